@@ -24,6 +24,8 @@ def run(ctx):
     rng = ctx.rng
     texts = []
     small = ['a: b\r\nc: d\r\n', 'é: ☺\n- 😀\n', '"\\u263A x"\n', '- a\n- b\x85- c\n', '﻿a: 1\n', 'k: [1, 2]\r', 'a: "b\n  c"\n', '--- |\n  lit\n...\n', '{a: b, c: d}', '? x\n: y\n', "'it''s'\n", '&a [*a]\n', 'a: \x01\n', 'a: b: c\n', '[1, 2\n', '- \ud800\n']
+    # U+FEFF inside the document, at the first character of a token: it is skipped only at the very start of the stream, whatever the buffer position
+    small += ['a: 1\n\ufeffb: 2\n', '- \ufeffx\n- y\n', '[\ufeffa, b]', 'k: \ufeffv\n', '# c\n\ufeff- a\n', 'a: 1\n\ufeff\ufeffb: 2\n', '\ufeffa: 1\n\ufeff', '--- \ufeffx\n...\n\ufeff--- y\n', '? \ufeffk\n: \ufeffv\n']
     texts += small
     docs = gen.mutated_corpus(rng, ctx.n(500, 6000), with_corpus=False)
     for t in docs:
